@@ -334,8 +334,8 @@ func (h *H) check2x2Solvers(id string, idx int) {
 		}
 		smin := sc * 1e-10
 		pad := it % 2
-		ab, bb := cs.matFrom("a", subMat(a, 0, na, 0, na), pad), cs.matFrom("b", subMat(b, 0, na, 0, nw), pad)
-		xb := cs.mat("x", na, nw, pad)
+		ab, bb := cs.matFrom("a", subMat(a, 0, na, 0, na), pad), cs.matFrom("b", subMat(b, 0, na, 0, nw), 1-pad)
+		xb := cs.mat("x", na, nw, 2*pad)
 		tag := fmt.Sprintf("trans=%v na=%d nw=%d", trans, na, nw)
 		var scale, xnorm float64
 		var ok bool
@@ -391,6 +391,41 @@ func (h *H) check2x2Solvers(id string, idx int) {
 		den := (ca*a.NormInf()+cmplx.Abs(w)*2)*xmax + scale*b.MaxAbs()
 		cs.band("Dlaln2", tag, "laln2-residual", worst, eps*math.Max(den, 1e-300), nil)
 		cs.band("Dlaln2", tag, "laln2-xnorm", math.Abs(xnorm-x.NormInf()), eps*math.Max(x.NormInf(), 1e-300), nil)
+	}
+
+	// Dlaln2 with smin above every entry of ca A - w D: documented to solve with
+	// smin*identity instead and to report ok = false. b and x have different
+	// leading dimensions.
+	for it := 0; it < count/5; it++ {
+		na, nw := 1+it%2, 1+(it/2)%2
+		trans := it%8 >= 4
+		a := r22(1)
+		b := r22(1)
+		ca, d1, d2 := rng.Uniform(0.5, 2), rng.Uniform(0.5, 2), rng.Uniform(0.5, 2)
+		wr, wi := rng.Sym(), 0.0
+		if nw == 2 {
+			wi = rng.Uniform(0.2, 1)
+		}
+		smin := 8 * (ca*a.MaxAbs() + 2*math.Hypot(wr, wi))
+		ab := cs.matFrom("a", subMat(a, 0, na, 0, na), it%3)
+		bb := cs.matFrom("b", subMat(b, 0, na, 0, nw), 1+it%2)
+		xb := cs.mat("x", na, nw, 0)
+		tag := fmt.Sprintf("na=%d nw=%d below-smin", na, nw)
+		var scale, xnorm float64
+		var ok bool
+		if !cs.try("Dlaln2", tag, "grid", true, func() {
+			scale, xnorm, ok = h.impl.Dlaln2(trans, na, nw, smin, ca, ab.s, ab.ld, d1, d2, bb.s, bb.ld, wr, wi, xb.s, xb.ld)
+		}) {
+			continue
+		}
+		if ok {
+			cs.fail("Dlaln2", tag, "ok-true-although-below-smin", "all entries of ca A - w D are below smin=%v", smin)
+			continue
+		}
+		// X = (scale / smin) B.
+		want := ref.Scale(scale/smin, subMat(b, 0, na, 0, nw))
+		cs.band("Dlaln2", tag, "laln2-perturbed-solution", ref.MaxDiff(xb.get(), want), eps*math.Max(want.MaxAbs(), 1e-300), nil)
+		cs.band("Dlaln2", tag, "laln2-xnorm", math.Abs(xnorm-want.NormInf()), eps*math.Max(want.NormInf(), 1e-300), nil)
 	}
 
 	// Dlag2: eigenvalues of A - w B, B upper triangular.
